@@ -296,7 +296,7 @@ func genRacy(rt *rapid.T) cronCase {
 // TestCronRacy: API calls issued at the very instant a wake-up is due.
 func TestCronRacy(t *testing.T) {
 	sec := vk.Sec("CronRacy")
-	vk.Check(t, 10000, 400000, func(rt *rapid.T) {
+	vk.Check(t, 20000, 6000000, func(rt *rapid.T) {
 		c := genRacy(rt)
 		out, err := runCronRacy(t, c)
 		if err != nil {
